@@ -1,9 +1,12 @@
 (* C01 — how the tree shape and the sums over children change when a quota entry is replaced,
    appended or removed. *)
 From Coq Require Import List ZArith Bool Lia.
-From Verif Require Import Lib.Vec2 C01.Model C01.Spec C01.Proofs_Base.
+From Verif Require Import Lib.VecN C01.Model C01.Spec C01.Proofs_Base.
 Import ListNotations.
 Open Scope Z_scope.
+
+Section WithDim.
+Context {D : Dim}.
 
 (* ---------- sums ---------- *)
 
@@ -350,3 +353,5 @@ Section UpdConst.
     - intros c Hc Hcn. unfold g'. apply Z.eqb_neq in Hcn. rewrite Hcn. reflexivity.
   Qed.
 End UpdConst.
+
+End WithDim.
